@@ -164,10 +164,16 @@ def structural(I, part):
     part.exhaustive["tree_routing_invariant"] = True
 
 
-def one_case(I, R, b, mode, e, part=None):
-    """returns None | (bucket, detail); updates part counters"""
+def one_case(I, R, b, mode, e, history=()):
+    """returns None | (bucket, detail). `history`: byte strings decoded just before
+    on the same disassembler object (part of the case, replayed first)"""
     I.set_mode(mode, e)
     try:
+        for h in history:
+            try:
+                I.decode(h, guard=3)
+            except (Exception, visa.HarnessTimeout):
+                pass
         try:
             a = visa.fingerprint(I.decode(b, guard=3))
         except Exception as x:
@@ -176,13 +182,15 @@ def one_case(I, R, b, mode, e, part=None):
             return "timeout"
         R.npfx = 0
         R.naccept = 0
-        I.reset_decoder()
+        # NB: the decoder's pending-prefix state is deliberately NOT reset between
+        # cases (only after an exception, see isa.decode): a stale prefix left by an
+        # earlier call must show up as a mismatch here. The reference scan never
+        # touches the disassembler object.
         try:
             with visa.time_guard(6):
                 ref = R.outcomes(b, mode, e)
         except visa.HarnessTimeout:
             return "timeout"
-        I.reset_decoder()
     finally:
         I.reset_mode()
     if a in ref:
@@ -220,9 +228,14 @@ def run_shard(shard, tier, seed):
     modes = I.modes()
     n = N[tier] // max(1, len(modes)) + 1
     for (mode, e) in modes:
-        def body(rnd, mode=mode, e=e):
+        hist = []
+
+        def body(rnd, mode=mode, e=e, hist=hist):
             b = I.gen_bytes(rnd, mode, e)
             res = one_case(I, R, b, mode, e)
+            prev = [h.hex() for h in hist[-3:]]
+            hist.append(b)
+            del hist[:-3]
             if res == "timeout":
                 part.count("inconclusive_timeout")
                 return
@@ -239,7 +252,7 @@ def run_shard(shard, tier, seed):
             if R.naccept >= 2:
                 part.count("tie_acceptors")
             if res is not None:
-                part.fail(res[0], case, res[1])
+                part.fail(res[0], dict(case, history=prev), res[1])
 
         campaign(st.randoms(use_true_random=False), body, n, shard_seed(seed, I.name, mode, e))
     return part
@@ -255,7 +268,7 @@ def replay(case):
         return None
     I = visa.load(case["isa"])
     R = Ref(I)
-    r = one_case(I, R, bytes.fromhex(case["bytes"]), case["mode"], case["endian"])
+    r = one_case(I, R, bytes.fromhex(case["bytes"]), case["mode"], case["endian"], [bytes.fromhex(h) for h in case.get("history", [])])
     return None if r == "timeout" else r
 
 
@@ -266,13 +279,23 @@ def shrink(case, bucket):
     R = Ref(I)
     b = bytes.fromhex(case["bytes"])
 
-    def fails(x):
-        r = one_case(I, R, x, case["mode"], case["endian"])
+    hist = [bytes.fromhex(h) for h in case.get("history", [])]
+
+    def fails(x, hs=None):
+        I.reset_decoder()
+        r = one_case(I, R, x, case["mode"], case["endian"], hist if hs is None else hs)
         return r is not None and r != "timeout" and r[0] == bucket
 
     from vlib.shrink import ddmin_bytes
 
-    b = ddmin_bytes(b, fails)
+    if fails(b, []):
+        hist = []
+    elif hist and fails(b, hist[-1:]):
+        hist = hist[-1:]
+    if not fails(b):
+        return case
+    b = ddmin_bytes(b, fails, 150)
     c = dict(case)
     c["bytes"] = b.hex()
+    c["history"] = [h.hex() for h in hist]
     return c
